@@ -26,6 +26,9 @@ if REPO_SRC not in sys.path:
 from vf import explore as ex  # noqa: E402
 from vf import symex  # noqa: E402
 
+import logging  # noqa: E402
+
+logging.disable(logging.CRITICAL)
 LEVEL = "other"
 
 
